@@ -16,7 +16,7 @@ CHECKS = {
          "DESIGN.md §3 C02"),
  "C05": ("exploration", "metamorphic mutation of signed entries (bit flips + structural forgeries)",
          "Every single-bit flip of content/salt/RCD/signature of valid base entries (RCD-1 and RCD-e, transfer and conversion, salt window edges) plus structural forgeries are placed next to the originals; ledger with forgeries must equal ledger without; single-purpose senders give a direct positive control.",
-         "ed25519/secp256k1 libraries trusted; the RCD-e boundary is judged as the pinned tree defines it (inert at the activation height itself). Mutations also insert/remove bytes of the content (whitespace at every position).",
+         "ed25519/secp256k1 libraries trusted; the RCD-e boundary is judged as the pinned tree defines it (inert at the activation height itself). Mutations also insert/remove bytes of the content (whitespace at every position). Two directory blocks have a silent transaction chain and a foreign chain (id right after the transaction chain's) carrying a funded sender's batch signed for that chain. A chain that cannot be synced only with the forged entries added is a violation.",
          "DESIGN.md §3 C05"),
  "C06": ("exploration", "effect counting on single-purpose addresses + metamorphic first-occurrence-only replay",
          "Entries repeated at every placement relative to holding/execution/rejection/restart, in five eras (incl. the per-height PEG bank before V4); number of effects read from final balances (0 or 1) and, for conversions, the credited amount must equal the one recorded execution; blocks also fail once and are applied again (failed dblock fetch / late statement failure); chain with first occurrences only must give the same ledger.",
@@ -32,7 +32,7 @@ CHECKS = {
          "DESIGN.md §3 C09"),
  "C10": ("fault_enumeration", "single-fault injection at SQL statement / upstream request boundaries + operating-system write faults via strace + differential ledger",
          "One transient fault (statement returns an error instead of executing, or request answered by RPC error / HTTP 500 / truncated body / reset) per run on special blocks, plus sampled pairs; every state committed from the faulted block on must equal the fault-free reference; crash-stop after a fault is resumed by a fresh process. Quick = every distinct (call site, statement shape) and request kind; thorough = every index.",
-         "Faults only at boundaries where the real system can fail; transient by construction. strace injection counts per thread: an OS-level case may inject a short burst instead of one failure.",
+         "Faults only at boundaries where the real system can fail; transient by construction. strace injection counts per thread: an OS-level case may inject a short burst instead of one failure, or strike at start-up (then the refusal to start is a stop like any other and a fresh process resumes). In part of the cases the upstream node is three blocks ahead when the fault strikes (the daemon applies several blocks in one job); block-level requests also fail twice in a row. A daemon that stops asking for blocks while its database is behind (80 idle polls), or whose sync goroutine is parked for minutes inside daemon code, counts as never recovering.",
          "DESIGN.md §3 C10"),
  "C03": ("exploration", "one-step reference-model monitor (two-pass funds rule) over adaptive workloads",
          "Well-signed batches with amounts at balance-1/balance/balance+1, several draws on one balance, self-credits, conversion-then-spend, zero and 2^63-1 amounts are considered by the real daemon on adaptively forged ledgers in every era; after each block every balance, the recorded status and the sign of every balance column are compared with the reference rule re-based on the observed previous state.",
@@ -48,15 +48,15 @@ CHECKS = {
          "DESIGN.md §3 C07"),
  "C11": ("exploration", "one-step reward/burn oracle using the grader library as verdict",
          "OPR/SPR sets of every shape and factoid blocks with burns and near-misses; PEG/pFCT deltas per address and coinbase rows must equal the payouts of the library-graded winners (top-100 filter on the previous state) and the valid burns.",
-         "Grading algorithm = pegnet grader library output on the same entries; rank-100 ties not judged.",
+         "Grading algorithm = pegnet grader library output on the same entries; rank-100 ties not judged. V1-era blocks with 10..24 records, repeated staker ids (junk in front of the genuine record, two valid records of one holder), two burns of one address in a block are part of the workload.",
          "DESIGN.md §3 C11"),
  "C12": ("exploration", "one-step rate oracle + immutability monitor",
          "pn_rate rows of each block must be exactly those derived from winner[0] of the OPR and SPR grades under the era's band rule and PEG pricing phase; unrated blocks have no rows; earlier rows never change.",
-         "Band computed with the same floating-point formula the statement implies; pre-2.0.2 out-of-band shape is a recorded finding (tagged).",
+         "Band computed with the same floating-point formula the statement implies; pre-2.0.2 out-of-band shape is a recorded finding (tagged). With `retries`, reads outside the block's transaction (previous winners, stakers' rich list) fail once per block as well.",
          "DESIGN.md §3 C12"),
  "C13": ("exploration", "one-step admission oracle at activation boundaries",
          "Conversions into every destination class submitted at activation-3..+2 of every activation from dedicated funded addresses; executed / reject code / dropped must match the statement's admission rule.",
-         "Covering sample of destination classes in quick, more seeds in thorough.",
+         "Covering sample of destination classes in quick, more seeds in thorough. One profile places the small-asset/PEG one-way activation before 2.0 (a configuration the daemon's testing flags produce); in half of the profiles the blocks at the one-way activation heights have no rates. A rate that is zero by the rules stays zero for the admission rule whatever the block recorded.",
          "DESIGN.md §3 C13"),
  "C14": ("exploration", "one-step holder-payout oracle at snapshot heights",
          "Holder sets of 8-300 addresses, totals below/around/above the cap, ties, movements between snapshots; PEG deltas at snapshot heights must equal the min-of-two-snapshots, pUSD-valued, capped proportional allocation with the dust rule.",
@@ -68,11 +68,11 @@ CHECKS = {
          "DESIGN.md §3 C15"),
  "C16": ("exploration", "one-step bank oracle (proportional allocation, dust, refund, bank row)",
          "PEG request sets of 0..40 requests around the bank size, piled over ungraded blocks, across the V4 switch; yields, refunds, recorded amounts and pn_bank rows compared with the rule.",
-         "Mixed PEG-request batches are a recorded finding and not generated.",
+         "Mixed PEG-request batches are a recorded finding and not generated (tagged scenario only). Tied largest requests sit at different positions of multi-request batches (dust goes to the lowest transaction id).",
          "DESIGN.md §3 C16"),
  "C17": ("exploration", "status/amount monitor + whole-history fold + paged enumeration through the real JSON-RPC server",
          "Per batch status and recorded amounts vs. the reference verdict; folding all history rows plus row-less scheduled adjustments must reproduce every balance; get-transactions paged by address/hash/height/txid asc/desc must return each action exactly once with a correct count.",
-         "Runs on chains that produce every verdict code; API on loopback.",
+         "Runs on chains that produce every verdict code; API on loopback. One profile (more in thorough) fails history writes once per block, the payout rows of snapshot blocks included: the block is applied again and history and ledger must still agree.",
          "DESIGN.md §3 C17"),
  "C18": ("exploration", "Go race detector + differential ledger + committed-state history check (porcupine) under hostile clients (hang-ups, failing reads)",
          "The real JSON-RPC server and the real sync loop run concurrently under -race with 12-32 clients cycling all read methods and injected delays; race reports with daemon frames, runtime fatals, ledger difference against the no-load run, and any response (part) that shows a height whose COMMIT was not yet issued are violations; histories are also checked with porcupine against a committed-height register model.",
@@ -80,11 +80,11 @@ CHECKS = {
          "DESIGN.md §3 C18"),
  "C19": ("exploration", "bounded-exhaustive session histories against the statement as oracle",
          "Histories of up to 3 sessions (build version incl. legacy, blocks synced by the real DBlockSync) x fork tables with a fork at every height within +-1 of a session boundary; every start is a real NewPegnetd; accept/refuse compared with the ground truth of which build synced which height; literal fork table included.",
-         "Builds predating version tracking are emulated by deleting the pn_sync_version rows of their own heights and may occur at any position of a history; forks never below the genesis height.",
+         "Builds predating version tracking are emulated by deleting the pn_sync_version rows of their own heights and may occur at any position of a history; forks never below the genesis height. In every fifth history the write of one block's version row fails once per tracking session (last block, first block or a fork height; the block is rolled back and applied again).",
          "DESIGN.md §3 C19"),
  "C20": ("exploration", "differential generation-based fuzzing against a strict reference reader and exact arithmetic",
          "Grammar-generated and mutated batch contents (signed, so content rules decide) compared one-way with a strict FAT-2 reader, re-encode/decode round trips of every accepted batch, and decimal strings compared with big-integer conversion.",
-         "Case-variant keys, batch-level metadata, null amounts: recorded, not judged. Tickers must be written literally; outputs must add up to the input without wrap-around.",
+         "Case-variant keys, batch-level metadata, null amounts: recorded, not judged. Tickers must be written literally; outputs must add up to the input without wrap-around, each and their sum within int64. Refusing a canonical batch is not judged (the statement forbids accepting, not refusing); the decoded value of an accepted batch must equal the strict reader's (kinds such as twin transfers with equal amounts exist for that).",
          "DESIGN.md §3 C20"),
 }
 
